@@ -11,7 +11,7 @@ import (
 
 func Now() time.Time {
 	if vs.ClockOn {
-		return time.Unix(0, vs.NowNS)
+		return time.Unix(0, vs.ReadClock())
 	}
 	return time.Now()
 }
